@@ -23,6 +23,11 @@ type C17Case struct {
 	// Ops: further Sort / Reverse calls after the first Sort (sort modes only), each followed by a
 	// comparison with the model (Sort -> sorted, Reverse -> reversed)
 	Ops []string `json:"ops,omitempty"`
+	// Fill > 0 (built at check time, the case stays small): mode "ints": the list additionally holds Fill
+	// copies of FillV between the drawn ints (one value occurring tens of thousands of times); mode
+	// "reverse": the list is the ints 0..Fill-1
+	Fill  int   `json:"fill,omitempty"`
+	FillV int64 `json:"fillv,omitempty"`
 }
 
 var sortStrings = []string{"", "a", "b", "ab", "abc", "B", "é", "e", "z", "aa", "a ", "\x00", "ÿ", "😀", "A", "a\x00"}
@@ -36,6 +41,18 @@ func GenC17(t *rapid.T) *C17Case {
 		n = []int{1023, 1024, 2047, 2048, 2049, 4096, 5000}[drawIdx(t, 7, "hugen")]
 	}
 	c := &C17Case{Twice: drawBool(t, "twice"), Route: drawInt(t, 0, numListRoutes-1, "route")}
+	if oneIn(t, 1500, "giant") {
+		// tens of thousands of elements (counters, block sizes and thresholds far above the usual)
+		if drawBool(t, "giantreverse") {
+			c.Mode, c.Fill = "reverse", []int{8194, 10000, 20001, 16385}[drawIdx(t, 4, "gr")]
+			return c
+		}
+		c.Mode, c.Fill, c.FillV = "ints", []int{65536, 70000, 131073}[drawIdx(t, 3, "gf")], int64(drawInt(t, -1, 7, "gv"))
+		for i, k := 0, drawInt(t, 3, 20, "extras"); i < k; i++ {
+			c.Ints = append(c.Ints, int64(drawInt(t, -3, 9, "x")))
+		}
+		return c
+	}
 	if drawBool(t, "seq") {
 		for i, n := 0, drawInt(t, 1, 5, "nops"); i < n; i++ {
 			c.Ops = append(c.Ops, []string{"sort", "reverse", "sort", "reverse", "replace", "add", "insert", "delete", "settf", "foreachpanic"}[drawIdx(t, 10, "op")])
@@ -136,9 +153,16 @@ func CheckC17(c *C17Case, st *Stats) error {
 				elems = append(elems, s)
 			}
 		case "ints":
-			for _, i := range c.Ints {
+			for k, i := range c.Ints {
 				shape.L = append(shape.L, VInt(int(i)))
 				elems = append(elems, int(i))
+				if c.Fill > 0 && k == len(c.Ints)/2 {
+					for j := 0; j < c.Fill; j++ {
+						shape.L = append(shape.L, VInt(int(c.FillV)))
+						elems = append(elems, int(c.FillV))
+					}
+					st.Count("giant_with_one_frequent_value")
+				}
 			}
 		case "floats":
 			for _, f := range c.Floats {
@@ -344,6 +368,14 @@ func CheckC17(c *C17Case, st *Stats) error {
 		return nil
 
 	case "reverse":
+		if c.Fill > 0 && c.Tree == nil {
+			big := V{K: KList, L: make([]V, c.Fill)}
+			for i := range big.L {
+				big.L[i] = VInt(i)
+			}
+			c = &C17Case{Mode: c.Mode, Tree: &big, Route: 0}
+			st.Count("giant_reverse")
+		}
 		if c.Tree == nil || c.Tree.K != KList {
 			return nil
 		}
@@ -431,6 +463,6 @@ func fmtInt(i int64) string {
 
 func init() {
 	Register("C17",
-		"homogeneous lists of strings / ints / non-NaN floats of length 1-40 (occasionally 64-257; in one case of 150 1023-5000 elements from a small range, so that every value occurs many times in every part of the list), built through drawn construction routes (shared element wrappers after NewListOf/Concat/SubList, typed-slice origin), optionally followed by a drawn sequence of further Sort/Reverse calls checked against a model, (1, even, odd; random, already sorted, reverse sorted, duplicate-heavy; extremes MinInt, MaxInt, +-Inf, +-0, +-MaxFloat64, subnormals, empty string, non-ASCII, prefixes of each other), lists of any kinds for Reverse, and lists whose first element is nil/bool/list/object for the panic clause. Oracle: Sort returns the same list, adjacent elements non-decreasing (strings bytewise), the multiset is unchanged (floats by bit pattern), a second Sort changes nothing; Reverse puts element i (identity for containers) at n-1-i and twice restores content and identities; Sort with a bad first element panics and leaves the list unchanged. Non-trivial = sort of length >= 3 not already sorted with a duplicate or an extreme value, reverse of length >= 3, or the panic clause. Distinct = distinct FNV-64a hash of the case JSON.",
+		"homogeneous lists of strings / ints / non-NaN floats of length 1-40 (occasionally 64-257; in one case of 150 1023-5000 elements from a small range, so that every value occurs many times in every part of the list; one case in 1500 has 65536-131073 copies of one int among a few others, or reverses 8194-20001 distinct ints), built through drawn construction routes (shared element wrappers after NewListOf/Concat/SubList, typed-slice origin), optionally followed by a drawn sequence of further Sort/Reverse calls checked against a model, (1, even, odd; random, already sorted, reverse sorted, duplicate-heavy; extremes MinInt, MaxInt, +-Inf, +-0, +-MaxFloat64, subnormals, empty string, non-ASCII, prefixes of each other), lists of any kinds for Reverse, and lists whose first element is nil/bool/list/object for the panic clause. Oracle: Sort returns the same list, adjacent elements non-decreasing (strings bytewise), the multiset is unchanged (floats by bit pattern), a second Sort changes nothing; Reverse puts element i (identity for containers) at n-1-i and twice restores content and identities; Sort with a bad first element panics and leaves the list unchanged. Non-trivial = sort of length >= 3 not already sorted with a duplicate or an extreme value, reverse of length >= 3, or the panic clause. Distinct = distinct FNV-64a hash of the case JSON.",
 		GenC17, CheckC17)
 }
